@@ -27,7 +27,7 @@ func DocJSON(i int, variant int) string {
 		i, i, i+1, i, i+10, i, i, i, i, i, i, i, i+1, i, i)
 	switch variant % 3 {
 	case 1:
-		base += `,"nil":null,"e":{},"ea":[]`
+		base += `,"nil":null,"e":{},"ea":[],"metas":[{},{"a":1},{}]`
 	case 2:
 		base += `,"deep":{"one":{"k":"d` + fmt.Sprint(i) + `"}},"flag":true`
 	}
@@ -109,6 +109,20 @@ func (g *Gen) Str(d int) string {
 		func(d int) string { return `(` + g.Str(d) + ` ~> $substringBefore("z"))` },
 		func(d int) string { return `$substringBefore(?, "z")(` + g.Str(d) + `)` },
 		func(d int) string { return `($p := $pad(?, 8, "-"); $p(` + g.Str(d) + `))` },
+		// partial applications whose bound arguments depend on the input
+		func(d int) string { return `$substring(?, 0, n)(` + g.Str(d) + `)` },
+		func(d int) string { return `($p := $pad(?, n + 5, "-"); $p(` + g.Str(d) + `))` },
+		func(d int) string { return `$substringBefore(?, nest.c.$substringAfter("X"))(` + g.Str(d) + `)` },
+		func(d int) string { return `$replace(?, name.$substring(0, 1), one.k)(` + g.Str(d) + `)` },
+		// the same picture under the default and under another decimal format
+		func(d int) string {
+			return `$formatNumber(` + g.Num(d) + `, ` + g.pick(`"000"`, `"#,##0.00"`, `"0.0"`, `"#.##0,00"`) + `, {"decimal-separator": ",", "grouping-separator": "."})`
+		},
+		func(d int) string {
+			return `$formatNumber(` + g.Num(d) + `, ` + g.pick(`"#,##0.00"`, `"#.##0,00"`, `"0,0"`) + `)`
+		},
+		func(d int) string { return `$formatNumber(` + g.Num(d) + ` / 100, "0%", {"percent": "%"})` },
+		func(d int) string { return `$formatNumber(` + g.Num(d) + `, "#0.0", {"zero-digit": "٠"})` },
 		func(d int) string { return `function($x){$x & "!"}(` + g.Str(d) + `)` },
 		func(d int) string { return `($f := $uppercase; $f(` + g.Str(d) + `))` },
 		func(d int) string { return `($f := $uppercase ~> $lowercase; $f(` + g.Str(d) + `))` },
@@ -174,7 +188,9 @@ func (g *Gen) Num(d int) string {
 
 // ArrN returns an expression denoting an array of numbers.
 func (g *Gen) ArrN(d int) string {
-	leaves := lit(`nums`, `items.q`, `[1..3]`, `[3, 1, 2]`, `nums[$ > 1]`, `nums^(>$)`, `nums^($)`)
+	leaves := lit(`nums`, `items.q`, `[1..3]`, `[3, 1, 2]`, `nums[$ > 1]`, `nums^(>$)`, `nums^($)`,
+		// `page` is a sub-slice of `nums` in some documents (shared backing array)
+		`page`, `$append(page, 99)`, `$append(page, nums)`, `$append(page, [7, 8, 9])`)
 	nodes := []func(d int) string{
 		func(d int) string { return `[` + g.Num(d) + `, ` + g.Num(d) + `]` },
 		func(d int) string { return `$map(` + g.ArrN(d) + `, function($v){$v * 2})` },
@@ -206,6 +222,8 @@ func (g *Gen) ArrS(d int) string {
 		func(d int) string { return `$split(` + g.Str(d) + `, ` + g.pick(`"z"`, `/z/`, `" "`) + `)` },
 		func(d int) string { return `$map(` + g.ArrS(d) + `, $uppercase)` },
 		func(d int) string { return `$map(` + g.ArrS(d) + `, $substring(?, 1))` },
+		func(d int) string { return `$map(` + g.ArrS(d) + `, $substring(?, 0, n))` },
+		func(d int) string { return `$map(` + g.ArrS(d) + `, $pad(?, n + 3, one.k))` },
 		func(d int) string { return `$map(` + g.ArrS(d) + `, function($v,$i){$v & $string($i)})` },
 		func(d int) string { return `$map(` + g.ArrN(d) + `, $string)` },
 		func(d int) string { return `$sort(` + g.ArrS(d) + `)` },
@@ -270,6 +288,12 @@ func (g *Gen) Transform(d int) string {
 		`items ~> |$|{"p": $uppercase(p)}|`,
 		`$ ~> |items|{}, ["p", "q"]|`,
 		`($t := |items|{"r": 1}|; $ ~> $t ~> $t)`,
+		// patterns that select empty containers
+		`$ ~> |e|{"seen": true}|`,
+		`$ ~> |metas|{"seen": true}|`,
+		`$map(metas, |$|{"t": 1}|)`,
+		`e ~> |$|{"x": name}|`,
+		`$ ~> |metas[0]|{"m": $$.n}, "a"|`,
 		`$ ~> |one|{"x": 1}| ~> |one|{"y": x + 1}|`,
 	)
 	nodes := []func(d int) string{
@@ -286,6 +310,34 @@ func (g *Gen) Transform(d int) string {
 // cloned argument ($$-relative or variable-relative). They must not write
 // into the caller's document either (C07).
 func (g *Gen) TransformOutside() string {
+	if g.R.Chance(2, 3) {
+		// selector of a node outside the copy, reached in various syntactic ways
+		sel := g.pick(`$$.one`, `$$.nest`, `$$.items`, `$$.items[0]`, `$v`, `$$.e`, `$$.metas`)
+		pat := sel
+		switch g.R.Intn(10) {
+		case 0:
+			pat = `items.(` + sel + `)`
+		case 1:
+			pat = `$lookup($$, "` + g.pick("one", "nest", "items") + `")`
+		case 2:
+			pat = `[` + sel + `]`
+		case 3:
+			pat = `(` + sel + `)`
+		case 4:
+			pat = `($f := function(){` + sel + `}; $f())`
+		case 5:
+			pat = `$map([1], function($x){` + sel + `})`
+		case 6:
+			pat = sel + `[true]`
+		case 7:
+			pat = `$filter([` + sel + `], function($o){true})`
+		case 8:
+			pat = `one.(` + sel + `)`
+		}
+		arg := g.pick(`$`, `one`, `items`, `nest`)
+		upd := g.pick(`{"x": 1}`, `{"c": "w"}`, `{"r": 0}, "q"`, `{}, "p"`, `{"k": "w"}, ["k"]`)
+		return `($v := ` + g.pick("one", "items", "nest", "items[1]") + `; ` + arg + ` ~> |` + pat + `|` + upd + `|)`
+	}
 	return g.pick(
 		`$ ~> |$$.one|{"x": 1}|`,
 		`($v := one; $ ~> |$v|{"x": 1}|)`,
@@ -325,7 +377,12 @@ func (g *Gen) Fail(d int) string {
 		`[1..1.5]`, `$sort(items)`, `nums^(name)`, `{"a": 1, "a": 2}`, `1 ~> 2`, `$number("x")`,
 		`$toMillis("notadate")`, `$fromMillis(1, "[Q]")`, `$ ~> |items|"notanobject"|`, `$ ~> |items|{}, 1|`,
 		`$substring()`, `$single(nums)`, `$reduce(nums, function($a){$a})`, `$formatBase(1, 99)`,
-		`function($x)<n:n>{$x}("s")`, `$map(nums, function($v){$v + name})`)
+		`function($x)<n:n>{$x}("s")`, `$map(nums, function($v){$v + name})`,
+		// failures deep inside nested user-defined function calls
+		`($f := function($n){$n = 0 ? $error("deep") : $f($n - 1)}; $f(40))`,
+		`($f := function($n){$n = 0 ? name + 1 : $f($n - 1)}; $f(25))`,
+		`($g := function($a){$map($a, function($v){$v > 2 ? $uppercase($v) : $v})}; $g(nums))`,
+		`$reduce([1..30], function($a, $b){$b = 30 ? $error("late") : $a + $b})`)
 	nodes := []func(d int) string{
 		func(d int) string { return `$uppercase(` + g.Num(d) + `)` },
 		func(d int) string { return `(` + g.Str(d) + ` + 1)` },
